@@ -102,7 +102,7 @@ class Runner:
         try:
             c.add_cache_slot(uri, data)
             res = "ok"
-        except ValueError:
+        except Exception:
             res = "rejected"
         new = c.cache_data[before:]
         opened = bool(new) and before == 0 and new[0] == 0xBF
@@ -128,11 +128,14 @@ class Runner:
     def merge(self, path):
         c = self.cache
         before = len(c.cache_data)
-        inp = file_pairs(path.read_bytes())
+        try:
+            inp = file_pairs(path.read_bytes())
+        except (cborx.CborError, AssertionError):
+            return "unreadable"  # the input file itself is malformed: its File event has already been rejected
         try:
             c.merge_single_cache_file(str(path))
             res = "ok"
-        except ValueError:
+        except Exception:  # ValueError for a duplicate; anything else is a refusal too (the spec decides if it was due)
             res = "rejected"
         new = c.cache_data[before:]
         opened = bool(new) and before == 0 and new[0] == 0xBF
